@@ -39,7 +39,8 @@ def _world(kind):
 
 
 ACTIONS = ["measure-all-sep", "measure-all", "measure-second-sep-nd", "measure-second", "combine", "combine-three", "cx-partners",
-           "beamsplitter", "resize-second", "kraus-second", "povm-second", "trace_out-second", "op-second"]
+           "beamsplitter", "resize-second", "kraus-second", "povm-second", "trace_out-second", "op-second", "kraus-both", "povm-both",
+           "reorder-both", "expand-second"]
 
 
 def cases(tier):
@@ -128,6 +129,41 @@ def scenario(B, case):
             checks.compare_joint(B, W, pre, post, [f1], lambda rho, d, pos: ref.apply_op(rho, d, pos, Ms[k]), "C18/povm on f1",
                                  renorm=True)
             B.require_structural(not f0.measured and not f1.measured and not f2.measured, "C18: a non-destructive POVM destroyed a Fock")
+        elif act == "kraus-both":
+            K0 = np.kron(np.diag([1.0, 0.6]), np.eye(2))
+            K1 = np.kron(np.array([[0, 0.8], [0, 0]]), np.array([[0, 1.0], [1.0, 0]]))
+            ce.apply_kraus([B.jnp.array(K0), B.jnp.array(K1)], f1, f0)
+            post = W.snapshot()
+            Ks = [ref.kron(cm.mat(B, [[1, 0], [0, 0.6]]), cm.identity(B, 2)),
+                  ref.kron(cm.mat(B, [[0, 0.8], [0, 0]]), cm.mat(B, [[0, 1], [1, 0]]))]
+            checks.compare_joint(B, W, pre, post, [f1, f0], lambda rho, d, pos: ref.kraus(rho, d, pos, Ks), "C18/kraus on (f1, f0)")
+            B.require_structural(post.block_of(f2).kind == "own", "C18: a channel on (f1, f0) moved f2")
+        elif act == "povm-both":
+            M0 = np.diag([1.0, 0.6, 0.6, 0.0])
+            M1 = np.diag([0.0, 0.8, 0.8, 1.0])
+            res = ce.measure_POVM([B.jnp.array(M0), B.jnp.array(M1)], f1, f0, destructive=False)
+            post = W.snapshot()
+            k = int(res[0])
+            Ms = [cm.mat(B, [[1, 0, 0, 0], [0, 0.6, 0, 0], [0, 0, 0.6, 0], [0, 0, 0, 0]]),
+                  cm.mat(B, [[0, 0, 0, 0], [0, 0.8, 0, 0], [0, 0, 0.8, 0], [0, 0, 0, 1]])]
+            checks.compare_joint(B, W, pre, post, [f1, f0], lambda rho, d, pos: ref.apply_op(rho, d, pos, Ms[k]), "C18/povm on (f1, f0)",
+                                 renorm=True)
+            B.require_structural(post.block_of(f2).kind == "own", "C18: a POVM on (f1, f0) moved f2")
+        elif act == "reorder-both":
+            ce.combine(f0, f1, p0)
+            ce.reorder(f1, f0)
+            post = W.snapshot()
+            b = post.block_of(f0)
+            B.require_structural([id(m) for m in b.members[:2]] == [id(f1), id(f0)],
+                                 f"C18: reorder(f1, f0) gave the block order {[name(m) for m in b.members]}")
+            checks.compare_unchanged(B, W, pre, post, "C18/reorder")
+        elif act == "expand-second":
+            ce.combine(f1, p1)
+            ce.expand(f1)
+            post = W.snapshot()
+            B.require_structural(post.block_of(f0).level == pre.block_of(f0).level and post.block_of(f0).kind == "own",
+                                 "C18: expand(f1) changed f0")
+            checks.compare_unchanged(B, W, pre, post, "C18/expand")
         elif act == "trace_out-second":
             ce.combine(f0, f1, p0)
             mid = W.snapshot()
